@@ -1,5 +1,8 @@
 import KdVerif.Model.Format
 import KdVerif.Gen.Enums
+import KdVerif.Proofs.Declared
+import KdVerif.Gen.Decoders
+import KdVerif.Gen.Host
 /-
   C14 (column half) — every formatted line is the concatenation, in a fixed order, of the enabled
   columns; switching one column off removes exactly that column and alters no other; colouring
@@ -24,10 +27,14 @@ import KdVerif.Gen.Enums
   * `_format_kevent` and `_format_callstack` never consult `self.color` (their models take no
     `Colour`), `_format_log` consults none of the `show_*` switches (its model takes no `Show`).
 
-  TODO (owned by the table-evolution slice, which will add `process_column_spec` to this file):
-  "the tables at that point of the stream equal the thread map superseded by the earlier
-  new-thread / terminate-pid / sampler records".  Here the tables are a parameter and
-  `process_column_lookup` states what the column shows for given tables.
+  PROCESS-COLUMN HALF (second part of this file, `tables_are_fold`, `process_column_spec`): in the
+  first part the tables are a parameter and `process_column_lookup` states what the column shows
+  for given tables; the second part proves that the tables the pipeline holds when a line is
+  formatted are the thread map superseded, in stream order, by the new-thread / exec /
+  terminate-pid / sampler records of the prefix UP TO AND INCLUDING THE EVENT THAT COMPLETED THE
+  TRACE (`formatted_traces` is a lazy `map` over the generator: a trace is formatted before the
+  next event is fed).  Event lines (`formatted_kevents`) never run the trace decoders: their
+  tables are the thread map alone, whatever records the stream holds (`kevent_process_column_spec`).
 -/
 namespace KdVerif.C14
 open KdVerif.Format
@@ -439,5 +446,160 @@ private def crToNl : Colour :=
   ⟨true, fun s => String.ofList (s.toList.map fun ch => if ch = '\r' then '\n' else ch), fun s _ => s⟩
 example : formatTrace {} crToNl {} ⟨1, 2, "a\rb"⟩ ≠ formatTrace {} Colour.off {} ⟨1, 2, "a\rb"⟩ := by decide +kernel
 example : formatTrace {} crToNl {} ⟨1, 2, "ab"⟩ = formatTrace {} Colour.off {} ⟨1, 2, "ab"⟩ := by decide +kernel
+
+end KdVerif.C14
+
+/-! ## Second part: which tables a line is formatted with (the process-column half)
+
+  Subject: `Trace.run` / `Trace.runAnnot` (Model/Trace, Model/TraceWrites: the whole `TracesParser` as driven by
+  `PyKdebugParser.traces` on the tables `set_thread_map` filled) and `Declared.declaredTables` (Model/Declared: a
+  plain fold over the prefix whose only state is the two lookup tables and the per-thread pending records; the
+  event list an event delivers comes from the declarative pairing specification `Spec/Pairing.emitSpec`).
+  Pids are naturals here (the thread map stores unsigned 32-bit pids, records unsigned 64-bit words): the
+  formatter's "absent" marker −1 never occurs in the pipeline's tables.
+-/
+namespace KdVerif.C14
+open KdVerif.Trace KdVerif.Declared KdVerif.Format
+
+/-- A fresh `TracesParser` on the tables the thread map filled. -/
+def start (tm : ThreadMap) : Trace.PState := { pairing := Pairing.PState.empty, tabs := mapTabs tm }
+
+/-- **thread_map_later_wins.**  The thread map declares, for a thread, the pid of its LAST entry, and names a
+    pid by the last entry that carries it. -/
+theorem thread_map_later_wins (tm : ThreadMap) (tid pid : Nat) :
+    (Decl.ofMap tm).threadsPids.get tid = ((tm.filter fun e => e.1 == tid).getLast?).map (·.2.1) ∧
+    (Decl.ofMap tm).pidsNames.get pid = ((tm.filter fun e => e.2.1 == pid).getLast?).map (·.2.2) := by
+  constructor
+  · have := lookup_reverse_append (tm.map fun e => (e.1, e.2.1)) [] tid
+    simp only [List.append_nil, List.lookup_nil, Option.or_none] at this
+    simp only [Decl.ofMap, Dict.get, this, List.filter_map, List.getLast?_map, Option.map_map]
+    rfl
+  · have := lookup_reverse_append (tm.map fun e => (e.2.1, e.2.2)) [] pid
+    simp only [List.append_nil, List.lookup_nil, Option.or_none] at this
+    simp only [Decl.ofMap, Dict.get, this, List.filter_map, List.getLast?_map, Option.map_map]
+    rfl
+
+/-- **tables_are_fold.**  After any prefix on which `feed_generator` raises no exception, the two lookup tables
+    (and the per-thread pending records) of the pipeline equal `declaredTables`: the thread map superseded, in
+    stream order, by the new-thread records (`threads_pids[new tid] = pid`; the name string of the same thread
+    teaches `pids_names[pid]`), exec pairs, terminate-pid records (`threads_pids[emitting tid] = pid`) and sampler
+    thread-info records (`threads_pids[tid] = pid`) of the prefix that are delivered to their handler.
+    (`hbn`: the code table names no table-writing handler for the page-fault sub-record ids that `handle_mach_vmfault`
+    parses in a nested call — true of the bundled table, `C05.bundled_nested_rows`.) -/
+theorem tables_are_fold (env : Env) (hbn : BenignNested env) (tm : ThreadMap) (pre : List Kevent)
+    (h : (Trace.run env (start tm) pre).2.1 = none) :
+    Decl.ofTabs (Trace.run env (start tm) pre).2.2.tabs = declaredTables env tm pre :=
+  Declared.tables_are_fold env hbn tm pre h
+
+/-- **process_column_spec.**  Every trace `formatted_traces` yields was completed by some event `e` of the stream
+    (`m = pre ++ e :: post`), and the process text of its line — `_format_process` on the tables as they are when
+    the trace is yielded — is `name(pid)` for the pid that `declaredTables` of the prefix up to and including `e`
+    holds for the trace's thread, and `Error: tid N` when that thread was never declared (`processSpec`). -/
+theorem process_column_spec (env : Env) (hbn : BenignNested env) (tm : ThreadMap) (m : List Kevent) (o : TraceOut)
+    (T : Tabs)
+    (h : (o, T) ∈ runAnnot env (start tm) m) :
+    ∃ pre e post, m = pre ++ e :: post ∧ o ∈ (Trace.run env (start tm) (pre ++ [e])).1 ∧
+      Format.formatProcess (fmtTables T.threadsPids T.pidsNames) o.tid
+        = processSpec (declaredTables env tm (pre ++ [e])) o.tid := by
+  obtain ⟨pre, e, post, hm, hne, hT, ho⟩ := mem_runAnnot env (start tm) m o T h
+  refine ⟨pre, e, post, hm, ho, ?_⟩
+  have := Declared.tables_are_fold env hbn tm (pre ++ [e]) hne
+  rw [← this]
+  change _ = processSpec (Decl.ofTabs (Trace.run env (start tm) (pre ++ [e])).2.2.tabs) o.tid
+  rw [← hT]
+  exact formatProcess_eq_spec (Decl.ofTabs T) o.tid
+
+/-- The same for the list the correspondence compares: every entry of `traceProcessColumns` carries the specified
+    text for the prefix that ends with the trace's trigger event. -/
+theorem trace_process_columns_spec (env : Env) (hbn : BenignNested env) (tm : ThreadMap) (m : List Kevent)
+    (x : Nat × Nat × String)
+    (h : x ∈ traceProcessColumns env tm m) :
+    ∃ pre e post, m = pre ++ e :: post ∧ x.2.2 = processSpec (declaredTables env tm (pre ++ [e])) x.2.1 := by
+  simp only [traceProcessColumns, List.mem_map] at h
+  obtain ⟨⟨o, T⟩, hmem, rfl⟩ := h
+  obtain ⟨pre, e, post, hm, _, hp⟩ := process_column_spec env hbn tm m o T hmem
+  exact ⟨pre, e, post, hm, hp⟩
+
+/-- What the specified text is, in the property's words. -/
+theorem process_spec_declared (d : Decl) (tid pid : Nat) (h : d.threadsPids.get tid = some pid) :
+    processSpec d tid = (d.pidsNames.get pid).getD "" ++ "(" ++ toString pid ++ ")" := by
+  simp [processSpec, h]
+
+theorem process_spec_undeclared (d : Decl) (tid : Nat) (h : d.threadsPids.get tid = none) :
+    processSpec d tid = "Error: tid " ++ toString tid := by
+  simp [processSpec, h]
+
+/-- The process column of the trace line itself (colour off, column enabled): the specified text padded to 34. -/
+theorem trace_line_process_column (d : Decl) (tr : TraceRec) :
+    textOf .process (traceCols (fmtTables d.threadsPids d.pidsNames) tr) = padRight 34 (processSpec d tr.tid) := by
+  rw [(process_column_of_builders Gen.Enums.DgbFuncQual [] _ default tr default "").2.1, formatProcess_eq_spec]
+
+/-- **kevent_process_column_spec.**  Event lines are printed without running the trace decoders: whatever
+    records the stream holds, their process column is the specified text for the THREAD MAP ALONE
+    (`declaredTables` of the empty prefix), padded to 27. -/
+theorem kevent_process_column_spec (env : Env) (qe : EnumDef) (codes : List (Nat × String)) (tm : ThreadMap) (e : Kevent) :
+    textOf .process (keventCols qe codes (fmtTables (mapTabs tm).threadsPids (mapTabs tm).pidsNames) e)
+      = padRight 27 (processSpec (declaredTables env tm []) e.tid) := by
+  rw [(process_column_of_builders qe codes _ e default default "").1]
+  exact congrArg (padRight 27) (formatProcess_eq_spec (Decl.ofMap tm) e.tid)
+
+theorem find_sampler_enum :
+    (Gen.Decoders.tables.enums.find? (·.name == "SamplerAction")).map (·.iter) = some Gen.Enums.SamplerAction_iter := by
+  decide +kernel
+
+/-- With the enum tables reflected from the repository, "the sampler window carries thread information" is
+    bit 0 of the first word of its START record (`SAMPLER_TH_INFO = 0x01`). -/
+theorem samples_thread_info_is_bit0 (env : Env) (henv : env.tables = Gen.Decoders.tables) (e : Kevent) :
+    samplesThreadInfo env e = decide (arg e 0 &&& 1 ≠ 0) := by
+  unfold samplesThreadInfo enumNamesOf
+  rw [henv]
+  have hf := find_sampler_enum
+  cases hfind : Gen.Decoders.tables.enums.find? (·.name == "SamplerAction") with
+  | none => rw [hfind] at hf; cases hf
+  | some d =>
+    rw [hfind] at hf
+    simp only [Option.map_some, Option.some.injEq] at hf
+    simp only [EnumDef.flagsOf, hf, contains_map_filter]
+    simp [Gen.Enums.SamplerAction_iter, Gen.Enums.SamplerAction_iter_0]
+    have := Nat.mod_two_eq_zero_or_one (arg e 0)
+    rcases this with h | h <;> simp [h]
+
+/-! ### non-vacuity: a thread map, a new-thread pair, a terminate-pid record, an undeclared thread -/
+
+private def exEnv : Env :=
+  { codes := fun k => [(0x7000004, "TRACE_DATA_NEWTHREAD"), (0x7010004, "TRACE_STRING_NEWTHREAD"),
+                       (0x7000010, "TRACE_DATA_THREAD_TERMINATE_PID"), (0x7010010, "TRACE_STRING_PROC_EXIT")].lookup k,
+    host := Gen.Host.host, tables := Gen.Decoders.tables, decoders := [],
+    dec := fun bs => .ok (String.ofList (bs.map Char.ofNat)) }
+
+private def rec' (ts tid eid : Nat) (vals : List Nat) (data : List Nat) : Kevent :=
+  { timestamp := ts, data := data, values := vals, tid := tid, debugid := eid, eventid := eid, qual := 0 }
+
+/-- thread 7 is declared by the map (twice: the later entry wins); thread 7 announces thread 9 of pid 50 and names
+    it "new"; thread 9 then reports itself as pid 60; thread 8 is never declared. -/
+private def exMap : ThreadMap := [(7, 41, "old"), (7, 42, "launchd")]
+private def exStream : List Kevent :=
+  [rec' 1 7 0x7010010 [] [120], rec' 2 7 0x7000004 [9, 50, 0, 0] [], rec' 3 9 0x7010010 [] [121],
+   rec' 4 7 0x7010004 [] [110, 101, 119], rec' 5 9 0x7010010 [] [122], rec' 6 9 0x7000010 [60, 1, 0, 0] [],
+   rec' 7 8 0x7010010 [] [123]]
+
+private theorem exEnv_benign : BenignNested exEnv := by
+  intro eid n hr hc
+  simp only [vmfaultRange, decide_eq_true_eq] at hr
+  have h1 : (eid == 0x7000004) = false := by rw [beq_eq_false_iff_ne]; omega
+  have h2 : (eid == 0x7010004) = false := by rw [beq_eq_false_iff_ne]; omega
+  have h3 : (eid == 0x7000010) = false := by rw [beq_eq_false_iff_ne]; omega
+  have h4 : (eid == 0x7010010) = false := by rw [beq_eq_false_iff_ne]; omega
+  simp [exEnv, List.lookup, h1, h2, h3, h4] at hc
+
+example : traceProcessColumns exEnv exMap exStream =
+    [(1, 7, "launchd(42)"), (2, 7, "launchd(42)"), (3, 9, "(50)"), (4, 7, "launchd(42)"), (5, 9, "new(50)"),
+     (6, 9, "(60)"), (7, 8, "Error: tid 8")] := by decide +kernel
+
+example : (Trace.run exEnv (start exMap) exStream).2.1 = none ∧
+    processSpec (declaredTables exEnv exMap (exStream.take 3)) 9 = "(50)" ∧
+    processSpec (declaredTables exEnv exMap (exStream.take 4)) 9 = "new(50)" ∧
+    processSpec (declaredTables exEnv exMap exStream) 9 = "(60)" ∧
+    processSpec (declaredTables exEnv exMap exStream) 8 = "Error: tid 8" := by decide +kernel
 
 end KdVerif.C14
